@@ -27,12 +27,19 @@ def trace():
     try:
         def integrands(tri):
             zero = real_np.array([Poly.const(0)] * 3, dtype=object)
+            del branches[:]
             res = T.mass_properties(tri, density=Poly.const(1), center_mass=zero)
+            if branches:
+                raise common.Broken("translate", "with a centre-of-mass override mass_properties now branches on "
+                                                 f"the data ({branches}): the override may no longer be honoured")
             I = res.inertia
             i4 = (I[1, 1] + I[2, 2] - I[0, 0]) / 2
             i5 = (I[0, 0] + I[2, 2] - I[1, 1]) / 2
             i6 = (I[0, 0] + I[1, 1] - I[2, 2]) / 2
+            del branches[:]
             res3 = T.mass_properties(tri, density=Poly.const(1), center_mass=None, skip_inertia=True)
+            if branches != ["abs"]:
+                raise common.Broken("translate", f"unexpected data-dependent branches {branches}")
             firsts = []
             for k in range(3):
                 rf = res3.center_mass[k]
@@ -57,12 +64,13 @@ def trace():
         # density / override behaviour of the post-processing, traced with symbols
         rho = Poly.var("rho")
         cm = real_np.array([Poly.var("k1"), Poly.var("k2"), Poly.var("k3")], dtype=object)
+        del branches[:]
         r = T.mass_properties(sym_array(NAMES, (1, 3, 3)), density=rho, center_mass=cm)
+        if branches:
+            raise common.Broken("translate", f"override path branches on the data: {branches}")
         post = {"mass": r.mass, "volume": r.volume, "center_mass": list(r.center_mass), "inertia": r.inertia}
     except Branch as b:
         raise common.Broken("translate", "mass_properties is no longer straight-line: " + str(b))
     finally:
         T.np = saved
-    if branches != ["abs"]:
-        raise common.Broken("translate", f"unexpected data-dependent branches {branches}")
     return F, post
